@@ -547,6 +547,21 @@ def solve_structure(ctx, mod):
 # ---------------------------------------------------------------------------
 def dispatch(ctx):
     sm = ctx.repo.mod(SOLVER)
+    # the field is written by the kernels only (whose stores are confined to
+    # interior edges, S4): smoothing() itself stores nothing into arrays
+    sf0 = sm.func('smoothing')
+    st0 = [n for n in ast.walk(sf0) if isinstance(n, (ast.Assign,
+                                                      ast.AugAssign)) and any(
+        isinstance(t, ast.Subscript) for t in (
+            n.targets if isinstance(n, ast.Assign) else [n.target]))]
+    st0 += [n for n in ast.walk(sf0) if isinstance(n, ast.AugAssign) and
+            isinstance(n.target, ast.Attribute)]
+    ctx.check('C03.S4.writes', 'smoothing() stores nothing into the field '
+              'itself', not st0, f'`{au.stext(st0[0]) if st0 else ""}`: '
+              'smoothing() writes array entries besides what the kernels '
+              'relax (e.g. zeroing boundary faces): tangential boundary '
+              'values are Dirichlet data of the relaxation and must not be '
+              'written', ctx.where(sm, st0[0] if st0 else sf0))
     # adaptation table
     fn = sm.func('_current_lr_dir')
     ps = au.params(fn)
